@@ -15,7 +15,8 @@ from .common import Scenario, elems, shape, mk_array, run_property, assume_not_n
 from .c03 import _norm, _same
 
 OPS = ["set_vertices", "set_values", "rename", "move", "copy", "remove_vertices", "remove_data", "add_data", "reopen",
-       "group_membership", "remove_object", "set_flags", "set_cells", "remove_cells", "modify_values"]
+       "group_membership", "remove_object", "set_flags", "set_cells", "remove_cells", "modify_values", "modify_vertices", "empty_group",
+       "create_deferred", "move_data", "foreign_membership"]
 FLAGS = ("public", "visible", "allow_delete", "allow_move", "allow_rename")
 
 
@@ -90,7 +91,9 @@ class OpSequence(Scenario):
         d1 = o.add_data({"D1": {"values": real_np.arange(3.0)}})
         d2 = o.add_data({"D2": {"values": real_np.array([7, 8, 9], dtype="int32"), "type": "integer"}})
         o.find_or_create_property_group(name="PG", properties=[d1.uid])
-        uid = {"g": g.uid, "h": h.uid, "o": o.uid, "d1": d1.uid, "d2": d2.uid}
+        p = Points.create(ws, vertices=real_np.arange(9.0).reshape(3, 3) + 2, name="P", parent=h)
+        s1 = p.add_data({"S1": {"values": real_np.arange(3.0) + 4}})
+        uid = {"g": g.uid, "h": h.uid, "o": o.uid, "d1": d1.uid, "d2": d2.uid, "p": p.uid, "s1": s1.uid}
         ws.close()
         with self.engine(cx) as X:
             st = {"ws": Workspace(ws.h5file)}       # a later session: every array goes through the model
@@ -183,6 +186,26 @@ class OpSequence(Scenario):
                             assume_not_ndv(cx, [y])
                             arr[0] = y
                             d.values = arr
+                    elif op == "modify_vertices":       # read-modify-write of the geometry
+                        arr = o.vertices
+                        arr[0, 2] = cx.real(f"s{t}z")
+                        o.vertices = arr
+                    elif op == "empty_group":
+                        o.find_or_create_property_group(name=f"empty at {t}")
+                    elif op == "create_deferred":       # creation with the write deferred to the close
+                        st["ws"].create_entity(ContainerGroup, save_on_creation=False, entity={"name": f"deferred group at {t}"})
+                        st["ws"].create_entity(Points, save_on_creation=False,
+                                               entity={"name": f"deferred points at {t}", "parent": get("h"),
+                                                       "vertices": mk_array(X, [cx.real(f"s{t}q{i}") for i in range(6)], (2, 3), "float64")})
+                    elif op == "move_data":
+                        d = get("d2")
+                        tgt = get("p")
+                        if d is not None and tgt is not None and shape(tgt.vertices)[0] == shape(o.vertices)[0]:
+                            d.parent = tgt if d.parent.uid == uid["o"] else o
+                    elif op == "foreign_membership":    # a property group is asked to list another object's data
+                        pgs = [q for q in (o.property_groups or []) if q.name == "PG"]
+                        if pgs and get("s1") is not None:
+                            pgs[0].add_properties(uid["s1"])
                     elif op == "set_cells":
                         if kind == "curve":
                             nv = shape(o.vertices)[0]
@@ -241,9 +264,10 @@ def main(tier, seed):
         outside=["placement of garbage-collection points (weak-reference liveness): not modelled, the harness keeps no stale handles",
                  "drillhole groups, surveys, grids, text / referenced data in sequences (single operations on them: C03, C04, C08, C12)",
                  "sequences longer than the bound; more than one object", "project header attributes (open findings under C03)"],
-        bounds={"quick": "all sequences of 2 operations from an alphabet of 15 {set vertices, set values, rename, move, copy, remove a vertex, "
+        bounds={"quick": "all sequences of 2 operations from an alphabet of 20 {set vertices, set values, rename, move, copy, remove a vertex, "
                          "remove data, add data, close + re-open, property-group membership, remove object, set flags, set cells, remove a cell, "
-                         "modify values in place and assign back} on a "
+                         "modify values / vertices in place and assign back, create an empty property group, create entities with deferred "
+                         "write, move data to another object, ask a property group to list another object's data} on a "
                          "3-vertex point set (all first operations) and a 3-vertex curve (6 first operations)",
                 "thorough": "all sequences of 3 operations, points and curve, every first operation"}[tier],
         expected_outcomes={"OpSequence": {"ok"}},
